@@ -14,7 +14,9 @@ WT=$(mktemp -d /tmp/seedwt.XXXXXX); rmdir "$WT"
 git -C /repo worktree add -q --detach "$WT" HEAD || exit 2
 trap 'git -C /repo worktree remove --force "$WT" >/dev/null 2>&1; rm -rf "$WT"' EXIT
 if ! git -C "$WT" apply "$SD/patch.diff" 2>/tmp/lead/apply_$SID.err; then
-  echo "$SID: patch does not apply to HEAD: $(head -2 /tmp/lead/apply_$SID.err)" | tee "$SD/recheck.txt"; exit 3
+  # the library moved on under the stored patch (usually a repair of the very site): keep the last
+  # transcript that could be taken, note the fact next to it
+  echo "$SID: patch does not apply to repo HEAD $(git -C /repo rev-parse --short HEAD): $(head -2 /tmp/lead/apply_$SID.err)" | tee "$SD/recheck.na.txt"; exit 3
 fi
 DEMO="n/a"
 if [ -f "$SD/demo.py" ]; then
